@@ -4,7 +4,7 @@
    peers and dials them); that the real nodes perform that step within the announce interval,
    also behind address-filtering NATs, is decided by the executed correspondence over all connected
    bootstrap graphs of 2-4 nodes, sampled 5-node graphs and NAT scenarios (py/props/c14.py). *)
-From VpnModel Require Import Base Conn PeerCrypto NodeInfo Table Node NodeProofs TrustProofs NextHopProofs PcInvariant AdmissionProofs SelfProofs.
+From VpnModel Require Import Base Conn PeerCrypto NodeInfo Table Node NodeProofs TrustProofs NextHopProofs PcInvariant AdmissionProofs SelfProofs OwnAddrProofs.
 
 (* a handshake message carrying the node's own id is rejected at every stage, by whatever address it arrived (after the fix of F13): object unchanged, no reply *)
 Theorem C14_own_message_rejected : forall ok s m, im_node m = i_node s ->
@@ -18,6 +18,16 @@ Theorem C14_never_peers_with_itself : forall salts c t0 evs a,
   exists now m, In (now, ENet a (WInit m)) evs /\ im_node m <> c_num c.
 Proof. exact never_peers_with_itself. Qed.
 
+(* WHOLE RUNS, the address side: in every reachable node state the own-address list contains every address the node was configured to advertise and its socket address (OW: the list only grows - addresses reported under the own id are adopted - or is reset to exactly the configured list) *)
+Theorem C14_own_addresses_known : forall salts c t0 evs, OW (nrun salts (node_new c t0) evs).
+Proof. exact reachable_ow. Qed.
+
+(* ... so in every reachable state dialling one of the configured own addresses sends nothing and changes nothing *)
+Theorem C14_never_dials_own_address : forall salts c t0 evs a,
+  let n := nrun salts (node_new c t0) evs in
+  In a (c_advertise (n_cfg n) ++ [c_addr (n_cfg n)]) -> connect_sock salts n a = (n, []).
+Proof. exact never_dials_own_address. Qed.
+
 (* addresses listed under the node's own id are added to its own addresses, nothing is dialled, no peer or pending entry appears *)
 Theorem C14_own_addresses_adopted : forall salts n p, pi_node p = Some (node_id_bytes (c_num (n_cfg n))) ->
   existsb (fun a => ahas (n_peers n) a) (map addr_of_bytes (pi_addrs p)) = false ->
@@ -25,6 +35,10 @@ Theorem C14_own_addresses_adopted : forall salts n p, pi_node p = Some (node_id_
   snd r = [] /\ n_peers (fst r) = n_peers n /\ n_pending (fst r) = n_pending n /\
   (forall a, In a (map addr_of_bytes (pi_addrs p)) -> memN a (n_own (fst r)) = true).
 Proof. exact adopt_own_addresses. Qed.
+
+(* non-vacuity *)
+Example C14_ex_own : In 1002 (c_advertise (n_cfg ex_b) ++ [c_addr (n_cfg ex_b)]) /\ memN 1002 (n_own ex_b) = true.
+Proof. exact ex_own. Qed.
 
 (* one peer-exchange round: whoever is connected to a neighbour of mine becomes my neighbour
    (NodeProofs.exchange).  Two nodes joined by a path of k+1 connections are directly connected after
@@ -38,4 +52,6 @@ Print Assumptions C14_round_shortens.
 
 Print Assumptions C14_own_message_rejected.
 Print Assumptions C14_never_peers_with_itself.
+Print Assumptions C14_own_addresses_known.
+Print Assumptions C14_never_dials_own_address.
 Print Assumptions C14_own_addresses_adopted.
